@@ -1,4 +1,99 @@
 import TsRsVerif.Model.Export
+import TsRsVerif.Lemmas.ExportLemmas
+/-!
+# C17 — export failures are returned as errors and do not poison later exports
+
+Theorems over `Model/Export.lean` (`exportTo` = `export_to`, the unit every entry point is a
+sequence of; `exportInto` = `export_into`).  The model is tied to export.rs / path.rs by the
+obstacle histories of `tools/props/c17.py`, run on the compiled universe and on this model.
+-/
 namespace TsRs
-theorem C17_placeholder : True := trivial
+open Text Export Fs
+
+/-- **a failed `export_to` step leaves everything but (newly created) directories untouched**:
+the registry is unchanged (the failure is *not recorded as done*), the lock is not poisoned, and the
+regular files of the file system are exactly what they were. For every world, type and path. -/
+theorem C17_failed_step_untouched (w w' : World) (t : TyInfo) (p : Str) (e : ExportErr)
+    (h : exportTo w t p = (w', .err e)) :
+    w'.reg = w.reg ∧ w'.poisoned = w.poisoned ∧ FilesEq w.fs w'.fs := by
+  unfold exportTo at h
+  cases ha : Path.absolute (cwdStr w.fs) p with
+  | error e' => simp [ha] at h; obtain ⟨h1, _⟩ := h; subst h1; exact ⟨rfl, rfl, FilesEq.refl _⟩
+  | ok path =>
+    simp only [ha] at h
+    cases ht : t.text with
+    | error e' => simp [ht] at h; obtain ⟨h1, _⟩ := h; subst h1; exact ⟨rfl, rfl, FilesEq.refl _⟩
+    | ok buffer =>
+      simp only [ht] at h
+      cases hpar : Path.parent path with
+      | none =>
+        simp only [hpar] at h
+        have := exportAndMerge_err _ _ _ _ _ _ h
+        subst this; exact ⟨rfl, rfl, FilesEq.refl _⟩
+      | some par =>
+        simp only [hpar] at h
+        cases hc : w.fs.createDirAll par with
+        | none => simp [hc] at h; obtain ⟨h1, _⟩ := h; subst h1; exact ⟨rfl, rfl, FilesEq.refl _⟩
+        | some fs' =>
+          simp only [hc] at h
+          have := exportAndMerge_err _ _ _ _ _ _ h
+          subst this
+          exact ⟨rfl, rfl, (createDirAll_frame _ _ _ hc).1⟩
+
+/-- the same for `export_into` (non-exportable type, path climbing above `/`, I/O obstacle) -/
+theorem C17_failed_export_into_untouched (w w' : World) (t : TyInfo) (dir : Str) (e : ExportErr)
+    (h : exportInto w t dir = (w', .err e)) :
+    w'.reg = w.reg ∧ w'.poisoned = w.poisoned ∧ FilesEq w.fs w'.fs := by
+  unfold exportInto at h
+  cases ho : t.outputPath with
+  | none => simp [ho] at h; obtain ⟨h1, _⟩ := h; subst h1; exact ⟨rfl, rfl, FilesEq.refl _⟩
+  | some op =>
+    simp only [ho] at h
+    cases ha : Path.absolute (cwdStr w.fs) (Path.join dir op) with
+    | error e' => simp [ha] at h; obtain ⟨h1, _⟩ := h; subst h1; exact ⟨rfl, rfl, FilesEq.refl _⟩
+    | ok p => simp only [ha] at h; exact C17_failed_step_untouched w w' t p e h
+
+/-- **errors, not panics — non-exportable root**: returns `CannotBeExported`, world unchanged -/
+theorem C17_non_exportable (w : World) (t : TyInfo) (dir : Str) (h : t.outputPath = none) :
+    exportInto w t dir = (w, .err .cannotBeExported) := by
+  simp [exportInto, h]
+
+/-- **errors, not panics — path climbing above `/`** (and any other `absolute` failure) -/
+theorem C17_climb_is_error (w : World) (t : TyInfo) (dir op : Str) (e : ExportErr)
+    (ho : t.outputPath = some op) (ha : Path.absolute (cwdStr w.fs) (Path.join dir op) = .error e) :
+    exportInto w t dir = (w, .err e) := by
+  simp [exportInto, ho, ha]
+
+/-- a `..` that would pop the root makes `absolute` fail (the behaviour after the `fix:` commit;
+    before it the result was the *relative* path `x.ts`) -/
+theorem C17_pop_root_is_error :
+    Path.absolute "/w".toList "../../x.ts".toList = .error .cannotBeExported ∧
+    Path.absolute "/w".toList "../x.ts".toList = .ok "/x.ts".toList := by decide
+
+/-- **the only source of a panic** in an export step on an unpoisoned registry is `merge` hitting one
+of its `expect`/`unwrap`s on the existing file's content; in particular the first write of a file
+never panics. -/
+theorem C17_panic_only_from_merge (w w' : World) (path name text : Str)
+    (hp : w.poisoned = false) (h : exportAndMerge w path name text = (w', .panic)) :
+    ∃ names loc orig why, regGet w.reg (regKey path) = some names ∧
+      w.fs.openRead path = some (loc, orig) ∧ Merge.merge orig text = .panic why := by
+  rcases exportAndMerge_cases w path name text with ⟨_, h1⟩ | h1 | h1 | ⟨_, _, h1⟩ | ⟨l, c, _, _, h1⟩
+  · rw [hp] at h1; simp at h1
+  · rw [h1] at h; simp at h
+  · rw [h1] at h; simp at h
+  · exact h1
+  · rw [h1] at h; simp at h
+
+/-- a failed step is **not recorded as done**: a retry sees the registry of before the failure -/
+theorem C17_not_recorded (w w' : World) (t : TyInfo) (p : Str) (e : ExportErr) (k : List Comp)
+    (h : exportTo w t p = (w', .err e)) : regGet w'.reg k = regGet w.reg k := by
+  rw [(C17_failed_step_untouched w w' t p e h).1]
+
+/-! ## non-vacuity: a concrete failing step (the parent component is a regular file) -/
+example :
+    let fs : Fs := { nodes := [(["w".toList], .dir), (["w".toList, "bindings".toList], .file "i am a file".toList)], cwd := ["w".toList] }
+    let w : World := { fs := fs, reg := [] }
+    let t : TyInfo := { ident := "A".toList, outputPath := some "A.ts".toList, text := .ok "x\n\nexport type A = 1;\n".toList, deps := [] }
+    (exportInto w t "./bindings".toList).2 = .err .io := by decide
+
 end TsRs
